@@ -1601,7 +1601,7 @@ func run(r *vh.Run, batch string) {
 	budget := tunx.NewBudget(1)
 	if kind == "aged" {
 		idle := r.Pick(12, 35)
-		c := genAged(r, "c04-aged", k, []string{"pipe", "tcp", "pipe"}[k], []string{"downstream", "downstream", "direct"}[k], idle)
+		c := genAged(r, "c04-aged", k, []string{"pipe", "tcp", "pipe"}[k], []string{"downstream", "downstream", "direct"}[k], idle, r.Pick(7, 12))
 		r.Case(c)
 		runSwarm(r, c, budget)
 		return
